@@ -39,6 +39,10 @@ def analyse(ck, prog=None):
     n = ("param", body.path, 3, "n_inner")
     m = ("param", body.path, 4, "private_batch_num_leaves")
     proofs = ("fld", targets, "private_batch_proofs")
+    # lengths: targets.private_batch_proofs has n_inner entries (constructor fact); vectors filled one entry per inner have the loop's length
+    from .pb import proofs_length_fact
+    proofs_length_fact(ck, prog, body, targets, n, "private_batch_proofs", r"public_batch::circuit::circuit_logic::PublicBatchCircuit::new$")
+    lc.register_filled(effs)
     loc0 = "%s:%s" % (body.file, body.line)
     cv = lambda s: prog.const_value("private_batch::circuit::constants::aggregated_output::" + s)
     OFF = {k: cv(k) for k in ("NUM_EXIT_SLOTS_OFFSET", "ASSET_ID_OFFSET", "VOLUME_FEE_BPS_OFFSET", "BLOCK_HASH_OFFSET", "BLOCK_NUMBER_OFFSET", "HEADER_LEN", "EXIT_SLOT_LEN")}
@@ -255,6 +259,28 @@ def analyse(ck, prog=None):
         vs = ns.vars() if ns.depth() == 3 else []
         okr = k == "one" and len(vs) == 3 and all(v is not None for v in vs) and over_inners(vs[0]) and vs[1][1] == 0 and lc.is_var(vs[2], 0, width) and not circ.uncond_problems(e)
         det = {"loops": [T.show(l)[:160] for l in ns.loops], "term": T.show(t, maxdepth=6)[:400]}
+        if not okr and k == "one" and ns.depth() == 2 and all(v is not None for v in ns.vars()) and over_inners(ns.var(0)) and not circ.uncond_problems(e):
+            # the region walked as ONE contiguous range per inner proof: for inner i, position p in 0..count*width: push pis_i[start + p]
+            i, pv = ns.vars()
+            mk = masked(C(t, e))
+            rd = read(mk[1]) if mk else None
+            okf = mk is not None and Dat(mk[0]) == i and rd is not None and rd[0] == i and pv[1] == 0
+            bad = []
+            if okf:
+                for mv in range(1, 65):
+                    ln = eval_int(pv[2], {m: mv}) if not isinstance(pv[2], int) else pv[2]
+                    if ln != count_term_fn(mv) * width:
+                        bad.append(("length", mv, ln))
+                        break
+                    for p_ in (0, 1, ln - 1):
+                        got = eval_int(rd[1], {m: mv, pv: p_})
+                        if got != start_fn(mv) + p_:
+                            bad.append(("index", mv, p_, got))
+            det["bad"] = bad[:4]
+            ob.add({"C12", "C36"}, okf and not bad, "ORDER+TERM", "pub/out/%s" % what,
+                   "%s region: for inner i (outermost), position p in one contiguous range of count*%d felts: push pis_i[start + p] masked to zero when is_dummy_i; lengths and offsets evaluated for every M in 1..64" % (what, width),
+                   e.loc, det)
+            return
         if okr:
             i, s, j = vs
             mk = masked(C(t, e))
